@@ -1010,9 +1010,23 @@ class Variable(CanBehaveLikeAVariable[T]):
     def _generate_combinations_for_child_vars_values_(
         self, sources: Optional[Dict[int, HashedValue]] = None
     ):
-        yield from generate_combinations(
-            {k: var._evaluate__(sources) for k, var in self._child_vars_.items()}
-        )
+        """
+        Generate the combinations of the child variables values. Every child variable is evaluated under the bindings
+        of the child variables before it, such that a variable that is used in more than one argument has the same
+        value in all of them.
+        """
+        child_vars = list(self._child_vars_.items())
+
+        def combine(index: int, bindings, selected: Dict[str, OperationResult]):
+            if index == len(child_vars):
+                yield dict(selected)
+                return
+            name, var = child_vars[index]
+            for result in var._evaluate__(bindings):
+                selected[name] = result
+                yield from combine(index + 1, result.bindings, selected)
+
+        yield from combine(0, sources, {})
 
     def _process_output_and_update_values_(
         self, instance: Any, kwargs: Dict[str, OperationResult]
